@@ -505,6 +505,61 @@ def check(run):
         if o['harness']:
             run.count('harness_' + str(o['harness'])[:40])
     check_refused_write(run)
+    check_interrupted_stop(run)
+
+
+def check_interrupted_stop(run):
+    """'at a regular stop all persistent blocks are saved together with a stop timestamp' - the states
+    and the time stamp are written BEFORE the blocks are stopped, so a stop whose (slow, asynchronous)
+    clean-up phase is cut short - shutdown() under a timeout - leaves a complete storage behind: a
+    restart must not judge the fresh states by the time stamp of an older run."""
+    obs = dict(storage=None, ts_fresh=None, harness=None)
+    store = {}
+
+    async def main(loop):
+        edzed.reset_circuit()
+        circuit = edzed.get_circuit()
+
+        class SlowStop(edzed.AddonAsync, edzed.SBlock):
+            def init_regular(self):
+                self.set_output(0)
+
+            async def stop_async(self):
+                await asyncio.sleep(0.4)
+        inp = edzed.Input('inp', initdef=0, persistent=True, expiration=10)
+        cnt = edzed.Counter('cnt', initdef=3, persistent=True, sync_state=False)
+        store.update({inp.key: 1, 'edzed-stop-time': (loop.wall_us() / 1e6) - 100.0})
+        SlowStop('slow', stop_timeout=5.0)
+        circuit.set_persistent_data(store)
+        task = asyncio.create_task(circuit.run_forever())
+        await circuit.wait_init()
+        inp.event('put', value=5)
+        cnt.event('inc')
+        t_stop = (loop.wall_us() / 1e6)
+        try:
+            await asyncio.wait_for(circuit.shutdown(), timeout=0.1)
+        except (asyncio.TimeoutError, asyncio.CancelledError):
+            pass
+        await asyncio.wait([task], timeout=2.0)
+        obs['storage'] = {k: v for k, v in store.items() if k != 'edzed-stop-time'}
+        ts = store.get('edzed-stop-time')
+        obs['ts_fresh'] = ts is not None and abs(ts - t_stop) < 1.0
+    try:
+        vloop.run_virtual(main, wall_limit_s=10.0)
+    except BaseException as err:                          # noqa
+        obs['harness'] = repr(err)[:200]
+    finally:
+        edzed.reset_circuit()
+    run.add_case(dict(interrupted_stop=True), True)
+    run.count('interrupted_stop')
+    ok = (obs['harness'] is None and obs['ts_fresh'] is True
+          and obs['storage'] == {"<Input 'inp'>": 5, "<Counter 'cnt'>": 4})
+    run.add_obligation(ok)
+    if not ok:
+        run.violation('monitor', dict(case=dict(interrupted_stop=True), observed=obs),
+                      f"shutdown() under a timeout shorter than a block's stop_async: storage {obs['storage']} "
+                      f"(expected both states: Input 5, Counter 4), fresh stop time stamp: {obs['ts_fresh']}; harness: "
+                      f"{obs['harness']}", clause='interrupted_stop_incomplete_storage', concrete=True)
 
 
 def check_refused_write(run, only=None):
@@ -569,6 +624,8 @@ def check_refused_write(run, only=None):
 
 def replay(run, path):
     _, case = common.load_replay_case(path)
+    if isinstance(case, dict) and 'interrupted_stop' in case:
+        return common.directed_replay(run, path, lambda: check_interrupted_stop(run))
     if isinstance(case, dict) and 'refused_write' in case:
         return common.directed_replay(run, path, lambda: check_refused_write(run, case['refused_write']))
     return common.std_replay(run, C06(), path)
